@@ -69,7 +69,8 @@ VCODES = {31: "one execution ran rules of two different installed versions (torn
 
 def main(run):
     build_harness()
-    ok, log = proof_obligations(run, PID, extra_obligations=1, extra_names=["correspondence_C07: Pool/Check.v check_exec = [] on every execution of every scenario"])
+    regen_pool()
+    ok, log = proof_obligations(run, PID, extra_obligations=2, extra_names=["T3: pool updates shape obligation (obligations/GenPoolOk.v)", "correspondence_C07: Pool/Check.v check_exec = [] on every execution of every scenario"])
     rng = random.Random(run.seed)
     scs = make_scenarios(rng, run.tier)
     run.log("running %d update/execution scenarios" % len(scs))
@@ -143,9 +144,12 @@ def main(run):
         where = "from inside rule pa" if sc["steps"][0].get("inside") else "while the execution is held in rule pa"
         run.report(sig, {"scenario": strip(sc), "requests": ob[sid].get("reqs"), "ops": ob[sid].get("ops"), "crash": ob[sid].get("stderr"), "disagreement": VCODES[code]},
                    "C07: %s with a %s update %s on a (%d,%d) pool: %s" % (method, sc["_first_kind"], where, sc["min"], sc["max"], VCODES[code]))
+    bad_shape = shape_report(run, PID, 'updates', bool(run.violations)) if ok else []
     if not ok and not run.violations:
         run.report({"kind": "proof", "theorem": PID}, {"theorem": "Props/C07.v", "log": log[-3000:]}, "C07: the Coq development no longer builds and no failing history was found", no_input=True)
     cov = run.coverage
+    if ok and not bad_shape:
+        cov["discharged"] += 1
     if not mm:
         cov["discharged"] += 1
     cov.update({"evaluations": len(scs), "distinct_nontrivial": landed,
